@@ -648,6 +648,11 @@ impl SvgElement {
 
     /// Calculate bounding box of target_shape inside self
     pub fn inscribed_bbox(&self, target_shape: &str) -> Result<Option<BoundingBox>> {
+        if self.has_pending_geometry() {
+            // registered early but not positioned yet (e.g. still carries `cxy`): no box to
+            // inscribe in until it is resolved
+            return Ok(None);
+        }
         let zstr = "0".to_owned();
         match (target_shape, self.name.as_str()) {
             // rect inside circle
